@@ -369,6 +369,65 @@ func init() {
 			}
 			return defBool("propose_registers_before_enqueue", reg >= 0 && add >= 0 && reg < add && del >= 2)
 		}},
+		// pendingReadIndex.genCtx draws the Low half of a ctx from the process wide random source
+		// (raft matches heartbeat responses to ReadIndex rounds by ctx, across replicas) and High = tick + 30
+		Fact{Name: "read_ctx_low_is_random", Gen: func() string {
+			fd := root().Func("pendingReadIndex", "genCtx")
+			ok := false
+			ast.Inspect(fd.Body, func(n ast.Node) bool {
+				if kv, isKV := n.(*ast.KeyValueExpr); isKV {
+					if k, isID := kv.Key.(*ast.Ident); isID && k.Name == "Low" {
+						if c, isCall := kv.Value.(*ast.CallExpr); isCall && selString(c.Fun) == "random.LockGuardedRand.Uint64" {
+							ok = true
+						}
+					}
+				}
+				return true
+			})
+			return defBool("read_ctx_low_is_random", ok)
+		}},
+		// node.processReadyToRead releases reads against ud.LastApplied only
+		Fact{Name: "ready_to_read_uses_last_applied", Gen: func() string {
+			fd := root().Func("node", "processReadyToRead")
+			n, good := 0, 0
+			ast.Inspect(fd.Body, func(x ast.Node) bool {
+				if c, isCall := x.(*ast.CallExpr); isCall && strings.HasSuffix(selString(c.Fun), ".pendingReadIndexes.applied") {
+					n++
+					if len(c.Args) == 1 && selString(c.Args[0]) == "ud.LastApplied" {
+						good++
+					}
+				}
+				return true
+			})
+			return defBool("ready_to_read_uses_last_applied", n == 1 && good == 1)
+		}},
+		// node.close() closes every request table, in this order
+		Fact{Name: "node_close_tables", Gen: func() string {
+			fd := root().Func("node", "close")
+			var out []string
+			for _, st := range fd.Body.List {
+				cn := callName(st)
+				if strings.HasPrefix(cn, "n.pending") && strings.HasSuffix(cn, ".close") {
+					out = append(out, strings.TrimSuffix(strings.TrimPrefix(cn, "n."), ".close"))
+				}
+			}
+			return coqStringList("node_close_tables", out)
+		}},
+		// node.gc() runs the gc of the three tables that have one of their own
+		Fact{Name: "node_gc_tables", Gen: func() string {
+			fd := root().Func("node", "gc")
+			var out []string
+			ast.Inspect(fd.Body, func(n ast.Node) bool {
+				if c, ok := n.(*ast.CallExpr); ok {
+					cn := selString(c.Fun)
+					if strings.HasPrefix(cn, "n.pending") && strings.HasSuffix(cn, ".gc") {
+						out = append(out, strings.TrimSuffix(strings.TrimPrefix(cn, "n."), ".gc"))
+					}
+				}
+				return true
+			})
+			return coqStringList("node_gc_tables", out)
+		}},
 		// pendingRaftLogQuery.add refuses requests after close
 		Fact{Name: "logquery_add_refuses_when_stopped", Gen: func() string {
 			return defBool("logquery_add_refuses_when_stopped",
